@@ -522,7 +522,7 @@ fn gen_patch(rng: &mut Rng) -> String {
     if rng.chance(1, 8) {
         root_actions.push(PAct::Label(if root_is_delegate || rng.chance(1, 8) { small_set(rng, 3) } else { vec![] }));
     }
-    let n = rng.range(2, 14) as usize;
+    let n = rng.range(3, 16) as usize;
     let mut dag = DagGen::new(1000 + rng.below(20));
     let mut ops = vec![POp { author: root_author, doc: Some(root_doc), ts: 1000, tips: vec![], actions: root_actions }];
     let mut revisions: Vec<Item> = vec![Item { id: 0, owner: root_author, parent: 0 }];
@@ -549,8 +549,16 @@ fn gen_patch(rng: &mut Rng) -> String {
         let mut made: Vec<(u8, u64)> = vec![]; // (kind, parent)
         for _ in 0..n_act {
             let mut k = rng.below(30);
-            if !is_delegate && rng.chance(1, 2) && (matches!(k, 1 | 2 | 4 | 5) || (matches!(k, 0 | 3) && !is_author)) {
+            if !is_delegate && rng.chance(1, 2) && (matches!(k, 1 | 2 | 4 | 5) || (matches!(k, 0) && !is_author)) {
                 k = rng.range(6, 29);
+            }
+            // keep the review / review-comment flows populated
+            let visible_reviews = reviews.iter().any(|v| anc.contains(&(v.id as usize)));
+            let visible_rcom = rcom.iter().any(|c| anc.contains(&(c.id as usize)));
+            if visible_reviews && !visible_rcom && rng.chance(1, 3) {
+                k = 12;
+            } else if visible_rcom && rng.chance(1, 5) {
+                k = rng.range(15, 19);
             }
             let body = |rng: &mut Rng, suspect: &mut bool| {
                 if rng.chance(1, 40) {
